@@ -18,11 +18,14 @@ Everything random derives from the vlib.Rng handed in.
 """
 import json
 
-KINDS = ['ref', 'rref', 'ptr', 'shared', 'cshared', 'vptr', 'vsptr']
+KINDS = ['ref', 'rref', 'ptr', 'shared', 'cshared', 'vptr', 'vsptr', 'cvsptr']     # indexes = Thunk.kind_of_nat
+# 'cvptr' (const virtual_ptr<T>&) can only be DECLARED: no definition taking it compiles (virtual_ptr::cast names
+# Other::element_type on a reference); it appears in the error scenarios of C02 only
+DECL_ONLY_KINDS = ['cvptr']
 CATS = ['val', 'lref', 'rref', 'moveonly']
 EXPRS = ['prvalue', 'xvalue', 'lvalue']
 RKINDS = ['void', 'int', 'val', 'lref', 'moveonly']
-SMART = ('shared', 'cshared', 'vsptr')
+SMART = ('shared', 'cshared', 'vsptr', 'cvsptr')
 
 # --------------------------------------------------------------------------- hierarchies
 
@@ -294,7 +297,12 @@ def make_scenario(rng, name, shape, classes, nmethods=18, moveonly=True, sanitiz
                         e = rng.choice(['lvalue', 'xvalue'])
                     else:
                         e = 'lvalue'
-                    args.append({'obj': obj_for(C, vi), 'cls': C, 'path': list(s), 'witness': list(subsC[tuple(s)]), 'expr': e})
+                    if p['kind'] in SMART:
+                        # a fresh complete object per call: the definition keeps a copy of the pointer it receives, the
+                        # caller drops its own, the object must stay alive exactly as long as the kept copy
+                        args.append({'obj': 'f%d' % pi, 'fresh': 1, 'cls': C, 'path': list(s), 'witness': list(subsC[tuple(s)]), 'expr': e})
+                    else:
+                        args.append({'obj': obj_for(C, vi), 'cls': C, 'path': list(s), 'witness': list(subsC[tuple(s)]), 'expr': e})
                     vi += 1
                 else:
                     cat = p['cat']
@@ -340,10 +348,14 @@ def manual_scenario(name, shape, classes, methods, calls, sanitize=True, ndebug=
         for pi, (p, a) in enumerate(zip(m['params'], args)):
             if p['v']:
                 C, path, e = a
-                if (C, vi) not in objs:
-                    objs[(C, vi)] = 'o%d' % len(objs)
-                    scn['objects'].append({'name': objs[(C, vi)], 'cls': C})
-                out.append({'obj': objs[(C, vi)], 'cls': C, 'path': list(path), 'witness': list(subobjects(H, C)[tuple(path)]), 'expr': e})
+                if p['kind'] in SMART:
+                    out.append({'obj': 'f%d' % pi, 'fresh': 1, 'cls': C, 'path': list(path),
+                                'witness': list(subobjects(H, C)[tuple(path)]), 'expr': e})
+                else:
+                    if (C, vi) not in objs:
+                        objs[(C, vi)] = 'o%d' % len(objs)
+                        scn['objects'].append({'name': objs[(C, vi)], 'cls': C})
+                    out.append({'obj': objs[(C, vi)], 'cls': C, 'path': list(path), 'witness': list(subobjects(H, C)[tuple(path)]), 'expr': e})
                 vi += 1
             else:
                 out.append({'value': a[0], 'expr': a[1]})
@@ -371,7 +383,8 @@ def expectations(scn):
                 vs[pi] = {
                     'kind': p['kind'], 'obj': a['obj'], 'B': p['cls'], 'D': D, 'C': C,
                     'path': '.'.join(map(str, cands[0])) if len(cands) == 1 else None,
-                    'smart': p['kind'] in SMART,
+                    'smart': p['kind'] in SMART, 'keep': bool(a.get('fresh')),
+                    'nsub': len(subobjects(H, C)),
                     'back_defined': count_sub(H, D, p['cls']) == 1,
                     'relation': relation_label(H, p['cls'], D),
                     'position': position_label(m['params'], pi),
@@ -408,6 +421,8 @@ def emit_model_input(scn):
             if p['v']:
                 L.append('varg %d %d %s %d %d %d %d %s' % (pi, KINDS.index(p['kind']), a['obj'], a['cls'], d['classes'][vi],
                                                           EXPRS.index(a['expr']), len(a['path']), ' '.join(map(str, a['path']))))
+                if a.get('fresh'):
+                    L.append('keep %d' % pi)
                 vi += 1
             else:
                 L.append('narg %d %d %d %d' % (pi, CATS.index(p['cat']), EXPRS.index(a['expr']), a['value']))
@@ -425,12 +440,12 @@ PRELUDE = r'''// GENERATED by /verif/harness/h2/gen_c11.py -- scenario %(name)s
 #include <memory>
 #include <string>
 #include <type_traits>
+#include <typeinfo>
 #include <utility>
 #include <vector>
 
 using yorel::yomm2::virtual_;
-template<class T> using VP = yorel::yomm2::virtual_ptr<T>;
-template<class T> using VSP = yorel::yomm2::virtual_shared_ptr<T>;
+%(policy)s
 
 struct Cnt { long cc = 0, mc = 0, as = 0; };
 static Cnt g_cnt;
@@ -455,7 +470,11 @@ struct MoveOnly {
 // derived-to-base conversions written out in this file, i.e. by the language, not by the library
 static std::map<std::pair<const void*, int>, std::pair<std::string, std::string>> g_sub;
 static std::vector<std::pair<const void*, int>> g_ctor;   // every constructor logs (this, class)
+static long g_live;                                        // constructors run minus destructors run, all classes
 static void reg(const char* obj, const char* path, int cls, const void* p) { g_sub[{p, cls}] = {obj, path}; }
+static void unreg(const char* obj) {
+    for (auto it = g_sub.begin(); it != g_sub.end();) { if (it->second.first == obj) it = g_sub.erase(it); else ++it; }
+}
 static void obj_report(const char* obj, int cls, int nsub) {
     int found = 0;
     for (auto& e : g_ctor) { auto it = g_sub.find(e); if (it != g_sub.end() && it->second.first == obj) ++found; }
@@ -464,9 +483,10 @@ static void obj_report(const char* obj, int cls, int nsub) {
 }
 
 // per call context written by the caller, read by the definition
-static const void* g_arg[4];      // address of the object passed for each parameter (as the method's class / as Tracked)
-static long g_uc[4];              // use_count at the call site just before the call
-static std::weak_ptr<void> g_owner[4];
+static const void* g_arg[8];      // address of the object passed for each parameter (as the method's class / as Tracked)
+static long g_uc[8];              // use_count at the call site just before the call
+static std::weak_ptr<void> g_owner[8];
+static std::shared_ptr<void> g_kept[8];   // the definition keeps a copy of every smart pointer it receives
 static long g_ret_value;
 static Tracked g_ret_obj(0);
 
@@ -493,6 +513,30 @@ static void narg_m(int pos, const MoveOnly& t) {
     std::printf("N %%d c=moveonly val=%%ld cp=0 mv=%%d same=-\n", pos, t.v, t.moves);
 }
 static void totals(const char* tag) { std::printf("%%s cp=%%ld mv=%%ld as=%%ld\n", tag, g_cnt.cc, g_cnt.mc, g_cnt.as); }
+// after the caller dropped its own pointers: is the object the definition kept a pointer to still alive?
+// (weak_ptr::expired and the constructor/destructor balance; the kept pointer is never dereferenced)
+static void keep_report(int pos) { std::printf("K %%d kept=%%d\n", pos, (int)!g_owner[pos].expired()); }
+'''
+
+POLICY_DEFAULT = '''template<class T> using VP = yorel::yomm2::virtual_ptr<T>;
+template<class T> using VSP = yorel::yomm2::virtual_shared_ptr<T>;'''
+POLICY_THROW = '''using POL = yorel::yomm2::default_policy::replace<yorel::yomm2::policy::error_handler, yorel::yomm2::policy::throw_error>;
+template<class T> using VP = yorel::yomm2::virtual_ptr<T, POL>;
+template<class T> using VSP = yorel::yomm2::virtual_shared_ptr<T, POL>;'''
+
+ERR_PRELUDE = r'''
+struct TypeName { const std::type_info* ti; const char* name; };
+static const TypeName g_types[] = { %(table)s };
+static const char* class_of(yorel::yomm2::type_id id) {
+    for (auto& t : g_types) if (reinterpret_cast<yorel::yomm2::type_id>(t.ti) == id) return t.name;
+    return "?";
+}
+static void print_err(const yorel::yomm2::resolution_error& e) {
+    std::printf("ERR status=%%d arity=%%d types=", (int)e.status, (int)e.arity);
+    for (std::size_t i = 0; i < e.arity && i < yorel::yomm2::resolution_error::max_types; ++i)
+        std::printf("%%s%%s", i ? "," : "", class_of(e.types[i]));
+    std::printf("\n");
+}
 '''
 
 
@@ -520,33 +564,83 @@ def method_param_type(p):
         return {'val': 'Tracked', 'lref': 'Tracked&', 'rref': 'Tracked&&', 'moveonly': 'MoveOnly'}[p['cat']]
     B = cname(p['cls'])
     return {'ref': 'virtual_<%s&>', 'rref': 'virtual_<%s&&>', 'ptr': 'virtual_<%s*>', 'shared': 'virtual_<std::shared_ptr<%s>>',
-            'cshared': 'virtual_<const std::shared_ptr<%s>&>', 'vptr': 'VP<%s>', 'vsptr': 'VSP<%s>'}[p['kind']] % B
+            'cshared': 'virtual_<const std::shared_ptr<%s>&>', 'vptr': 'VP<%s>', 'vsptr': 'VSP<%s>', 'cvsptr': 'const VSP<%s>&',
+            'cvptr': 'const VP<%s>&'}[p['kind']] % B
 
 
 def def_param_type(p, D):
     if not p['v']:
         return method_param_type(p)
     return {'ref': '%s&', 'rref': '%s&&', 'ptr': '%s*', 'shared': 'std::shared_ptr<%s>', 'cshared': 'const std::shared_ptr<%s>&',
-            'vptr': 'VP<%s>', 'vsptr': 'VSP<%s>'}[p['kind']] % cname(D)
+            'vptr': 'VP<%s>', 'vsptr': 'VSP<%s>', 'cvsptr': 'const VSP<%s>&'}[p['kind']] % cname(D)
 
 
 RET_TYPE = {'void': 'void', 'int': 'long', 'val': 'Tracked', 'lref': 'Tracked&', 'moveonly': 'MoveOnly'}
 
 
+def emit_args(w, H, m, args, indent='    '):
+    """statements that build the arguments of one call; returns (argument expressions, statements to run just before the call)"""
+    exprs, late = [], []
+    for pi, (p, a) in enumerate(zip(m['params'], args)):
+        if p['v']:
+            B = cname(p['cls'])
+            k = p['kind']
+            if a.get('fresh'):
+                o = a['obj']
+                w(indent + 'std::shared_ptr<%s> %s = std::make_shared<%s>();' % (cname(a['cls']), o, cname(a['cls'])))
+                w(indent + 'register_%s("%s", %s.get());' % (cname(a['cls']), o, o))
+            else:
+                o = 'g_' + a['obj']
+            w(indent + '%s* p%d = %s;' % (B, pi, chain('%s.get()' % o, a['witness'])))
+            w(indent + 'g_arg[%d] = static_cast<const void*>(p%d);' % (pi, pi))
+            if k == 'ref':
+                exprs.append('*p%d' % pi)
+            elif k == 'rref':
+                exprs.append('std::move(*p%d)' % pi)
+            elif k == 'ptr':
+                exprs.append('p%d' % pi)
+            elif k in ('vptr', 'cvptr'):
+                w(indent + 'VP<%s> v%d(*p%d);' % (B, pi, pi))
+                exprs.append('v%d' % pi)
+            else:
+                w(indent + 'std::shared_ptr<%s> s%d = %s;' % (B, pi, sp_chain(o, a['witness'])))
+                w(indent + 'g_owner[%d] = s%d;' % (pi, pi))
+                if k in ('vsptr', 'cvsptr'):
+                    w(indent + 'VSP<%s> v%d(s%d);' % (B, pi, pi))
+                    var = 'v%d' % pi
+                else:
+                    var = 's%d' % pi
+                exprs.append('std::move(%s)' % var if a['expr'] == 'xvalue' else var)
+                late.append(indent + 'g_uc[%d] = s%d.use_count();' % (pi, pi))
+        else:
+            T = 'MoveOnly' if p['cat'] == 'moveonly' else 'Tracked'
+            if a['expr'] == 'prvalue':
+                exprs.append('%s(%d)' % (T, a['value']))
+            else:
+                w(indent + '%s x%d(%d);' % (T, pi, a['value']))
+                w(indent + 'g_arg[%d] = static_cast<const void*>(&x%d);' % (pi, pi))
+                exprs.append('std::move(x%d)' % pi if a['expr'] == 'xvalue' else 'x%d' % pi)
+    return exprs, late
+
+
 def emit_cpp(scn):
     H = hier_of(scn['classes'])
-    out = [PRELUDE % {'name': scn['name']}]
+    pol = scn['flags'].get('policy', 'default')
+    POL = ', POL' if pol == 'throw' else ''
+    out = [PRELUDE % {'name': scn['name'], 'policy': POLICY_THROW if pol == 'throw' else POLICY_DEFAULT}]
     w = out.append
     for c in scn['classes']:
         bs = ', '.join(('virtual ' if v else '') + cname(b) for b, v in c['bases'])
         pad = ' char pad%d[%d] = {};' % (c['id'], c['pad']) if c['pad'] else ''
-        w('struct %s%s { long m%d = %d;%s %s() { g_ctor.push_back({static_cast<const void*>(this), %d}); } virtual ~%s() {} };'
+        w('struct %s%s { long m%d = %d;%s %s() { g_ctor.push_back({static_cast<const void*>(this), %d}); ++g_live; } virtual ~%s() { --g_live; } };'
           % (cname(c['id']), (' : ' + bs) if bs else '', c['id'], c['id'], pad, cname(c['id']), c['id'], cname(c['id'])))
     allc = ', '.join(cname(c['id']) for c in scn['classes'])
     if scn['flags']['registration'] == 'macro':
-        w('register_classes(%s);' % allc)
+        w('register_classes(%s%s);' % (allc, POL))
     else:
-        w('static yorel::yomm2::use_classes<%s> g_use_classes;' % allc)
+        w('static yorel::yomm2::use_classes<%s%s> g_use_classes;' % (allc, POL))
+    if scn.get('error_calls'):
+        w(ERR_PRELUDE % {'table': ', '.join('{&typeid(%s), "%s"}' % (cname(c['id']), cname(c['id'])) for c in scn['classes'])})
     w('')
     # methods and definitions
     for m in scn['methods']:
@@ -554,9 +648,11 @@ def emit_cpp(scn):
         R = RET_TYPE[m['ret']]
         ptypes = ', '.join(method_param_type(p) for p in m['params'])
         if m['route'] == 'macro':
-            w('declare_method(%s, m%d, (%s));' % (R, mid, ptypes))
+            w('declare_method(%s, m%d, (%s)%s);' % (R, mid, ptypes, POL))
         else:
-            w('struct m%d_key; using m%d = yorel::yomm2::method<m%d_key, %s(%s)>;' % (mid, mid, mid, R, ptypes))
+            w('struct m%d_key; using m%d = yorel::yomm2::method<m%d_key, %s(%s)%s>;' % (mid, mid, mid, R, ptypes, POL))
+            if not m['defs']:
+                w('static auto& m%d_instance = m%d::fn;   // make sure the method object exists' % (mid, mid))
         for d in m['defs']:
             dn = 'm%d_d%d' % (mid, d['id'])
             vi = 0
@@ -577,10 +673,11 @@ def emit_cpp(scn):
                     elif k == 'vptr':
                         pre = '%s* pd = a%d.get(); long uc = -999; int own = -1;' % (Dn, pi)
                     elif k in ('shared', 'cshared'):
-                        pre = '%s* pd = a%d.get(); long uc = a%d.use_count() - g_uc[%d]; int own = same_owner(a%d, %d);' % (Dn, pi, pi, pi, pi, pi)
+                        pre = ('%s* pd = a%d.get(); long uc = a%d.use_count() - g_uc[%d]; int own = same_owner(a%d, %d); g_kept[%d] = a%d;'
+                               % (Dn, pi, pi, pi, pi, pi, pi, pi))
                     else:
-                        pre = ('auto sp = a%d.get(); %s* pd = sp.get(); long uc = sp.use_count() - 1 - g_uc[%d]; int own = same_owner(sp, %d);'
-                               % (pi, Dn, pi, pi))
+                        pre = ('auto sp = a%d.get(); %s* pd = sp.get(); long uc = sp.use_count() - 1 - g_uc[%d]; int own = same_owner(sp, %d); '
+                               'g_kept[%d] = sp;' % (pi, Dn, pi, pi, pi))
                     body.append('    { ' + pre)
                     if k == 'shared':
                         lib = 'yorel::yomm2::detail::requires_dynamic_cast<%s*, std::shared_ptr<%s>>' % (Bn, Dn)
@@ -611,101 +708,223 @@ def emit_cpp(scn):
                 w('}')
                 w('static m%d::add_function<%s> %s_reg;' % (mid, dn, dn))
         w('')
-    # objects
+    # one registration function per complete class in use: names every subobject through the language's conversions
+    used = sorted(set([o['cls'] for o in scn['objects']] +
+                      [a['cls'] for c in scn['calls'] + scn.get('error_calls', []) for a in c['args'] if a.get('fresh')]))
+    for C in used:
+        w('static void register_%s(const char* obj, %s* c) {' % (cname(C), cname(C)))
+        subs = subobjects(H, C)
+        for k in sorted(subs):
+            w('    reg(obj, "%s", %d, static_cast<const void*>(%s));' % ('.'.join(map(str, k)), k[-1], chain('c', subs[k])))
+        w('}')
     for o in scn['objects']:
         C = o['cls']
         w('static std::shared_ptr<%s> g_%s;' % (cname(C), o['name']))
         w('static void make_%s() {' % o['name'])
         w('    g_ctor.clear();')
         w('    g_%s = std::make_shared<%s>();' % (o['name'], cname(C)))
-        w('    %s* c = g_%s.get();' % (cname(C), o['name']))
-        subs = subobjects(H, C)
-        for k in sorted(subs):
-            w('    reg("%s", "%s", %d, static_cast<const void*>(%s));' % (o['name'], '.'.join(map(str, k)), k[-1], chain('c', subs[k])))
-        w('    obj_report("%s", %d, %d);' % (o['name'], C, len(subs)))
+        w('    register_%s("%s", g_%s.get());' % (cname(C), o['name'], o['name']))
+        w('    obj_report("%s", %d, %d);' % (o['name'], C, len(subobjects(H, C))))
         w('}')
     w('')
     meth = {m['id']: m for m in scn['methods']}
     for c in scn['calls']:
         m = meth[c['method']]
         cid = c['id']
+        fresh = [(pi, a) for pi, a in enumerate(c['args']) if a.get('fresh')]
         w('static void call_%d() {' % cid)
         w('    std::printf("C %d m=%d route=%s\\n");' % (cid, m['id'], m['route']))
         w('    g_ret_value = %d;' % c['ret_value'])
-        exprs = []
-        for pi, (p, a) in enumerate(zip(m['params'], c['args'])):
-            if p['v']:
-                B = cname(p['cls'])
-                o = 'g_' + a['obj']
-                k = p['kind']
-                w('    %s* p%d = %s;' % (B, pi, chain('%s.get()' % o, a['witness'])))
-                w('    g_arg[%d] = static_cast<const void*>(p%d);' % (pi, pi))
-                if k == 'ref':
-                    exprs.append('*p%d' % pi)
-                elif k == 'rref':
-                    exprs.append('std::move(*p%d)' % pi)
-                elif k == 'ptr':
-                    exprs.append('p%d' % pi)
-                elif k == 'vptr':
-                    w('    VP<%s> v%d(*p%d);' % (B, pi, pi))
-                    exprs.append('v%d' % pi)
-                else:
-                    w('    std::shared_ptr<%s> s%d = %s;' % (B, pi, sp_chain(o, a['witness'])))
-                    w('    g_owner[%d] = s%d;' % (pi, pi))
-                    if k == 'vsptr':
-                        w('    VSP<%s> v%d(s%d);' % (B, pi, pi))
-                        var = 'v%d' % pi
-                    else:
-                        var = 's%d' % pi
-                    exprs.append('std::move(%s)' % var if a['expr'] == 'xvalue' else var)
-            else:
-                T = 'MoveOnly' if p['cat'] == 'moveonly' else 'Tracked'
-                if a['expr'] == 'prvalue':
-                    exprs.append('%s(%d)' % (T, a['value']))
-                else:
-                    w('    %s x%d(%d);' % (T, pi, a['value']))
-                    w('    g_arg[%d] = static_cast<const void*>(&x%d);' % (pi, pi))
-                    exprs.append('std::move(x%d)' % pi if a['expr'] == 'xvalue' else 'x%d' % pi)
-        for pi, (p, a) in enumerate(zip(m['params'], c['args'])):
-            if p['v'] and p['kind'] in SMART:
-                w('    g_uc[%d] = s%d.use_count();' % (pi, pi))
+        w('    long live0 = g_live;')
+        w('    {')
+        exprs, late = emit_args(w, H, m, c['args'], indent='        ')
+        for l in late:
+            w(l)
         callee = ('m%d' % m['id']) if m['route'] == 'macro' else ('m%d::fn' % m['id'])
         call = '%s(%s)' % (callee, ', '.join(exprs))
-        w('    g_cnt = Cnt();')
+        w('        g_cnt = Cnt();')
         if m['ret'] == 'void':
-            w('    %s;' % call)
-            w('    std::printf("R k=void val=- cp=- mv=- same=-\\n");')
+            w('        %s;' % call)
+            w('        std::printf("R k=void val=- cp=- mv=- same=-\\n");')
         elif m['ret'] == 'int':
-            w('    long r = %s;' % call)
-            w('    std::printf("R k=int val=%ld cp=- mv=- same=-\\n", r);')
+            w('        long r = %s;' % call)
+            w('        std::printf("R k=int val=%ld cp=- mv=- same=-\\n", r);')
         elif m['ret'] == 'val':
-            w('    Tracked r = %s;' % call)
-            w('    std::printf("R k=val val=%ld cp=%d mv=%d same=-\\n", r.v, r.copies, r.moves);')
+            w('        Tracked r = %s;' % call)
+            w('        std::printf("R k=val val=%ld cp=%d mv=%d same=-\\n", r.v, r.copies, r.moves);')
         elif m['ret'] == 'lref':
-            w('    Tracked& r = %s;' % call)
-            w('    std::printf("R k=lref val=%ld cp=%d mv=%d same=%d\\n", r.v, r.copies, r.moves, (int)(&r == &g_ret_obj));')
+            w('        Tracked& r = %s;' % call)
+            w('        std::printf("R k=lref val=%ld cp=%d mv=%d same=%d\\n", r.v, r.copies, r.moves, (int)(&r == &g_ret_obj));')
         else:
-            w('    MoveOnly r = %s;' % call)
-            w('    std::printf("R k=moveonly val=%ld cp=0 mv=%d same=-\\n", r.v, r.moves);')
-        w('    totals("X");')
+            w('        MoveOnly r = %s;' % call)
+            w('        std::printf("R k=moveonly val=%ld cp=0 mv=%d same=-\\n", r.v, r.moves);')
+        w('        totals("X");')
+        w('    }')
+        if fresh:
+            # the caller's pointers are gone; only the copies kept by the definition own the fresh objects now
+            for pi, a in fresh:
+                w('    keep_report(%d);' % pi)
+            w('    long alive = g_live - live0;')
+            for pi, a in fresh:
+                w('    g_kept[%d].reset(); unreg("%s");' % (pi, a['obj']))
+            w('    std::printf("L alive=%ld freed=%d\\n", alive, (int)(g_live == live0));')
+        w('    std::printf("E %d\\n");' % cid)
+        w('}')
+    for c in scn.get('error_calls', []):
+        m = meth[c['method']]
+        cid = c['id']
+        w('static void ecall_%d() {' % cid)
+        w('    std::printf("C %d m=%d route=%s\\n");' % (cid, m['id'], m['route']))
+        w('    try {')
+        exprs, late = emit_args(w, H, m, c['args'], indent='        ')
+        callee = ('m%d' % m['id']) if m['route'] == 'macro' else ('m%d::fn' % m['id'])
+        w('        %s(%s);' % (callee, ', '.join(exprs)))
+        w('        std::printf("ERR none\\n");')
+        w('    } catch (const yorel::yomm2::resolution_error& e) { print_err(e);')
+        w('    } catch (...) { std::printf("ERR other\\n"); }')
         w('    std::printf("E %d\\n");' % cid)
         w('}')
     w('')
     w('int main() {')
     w('    std::setvbuf(stdout, nullptr, _IOLBF, 0);')
-    w('    yorel::yomm2::update();')
+    w('    yorel::yomm2::update%s();' % ('<POL>' if pol == 'throw' else ''))
+    if scn.get('error_calls') and pol != 'throw':
+        w('    yorel::yomm2::set_error_handler([](const yorel::yomm2::error_type& ev) {')
+        w('        if (auto e = std::get_if<yorel::yomm2::resolution_error>(&ev)) throw *e;')
+        w('    });')
     w('    std::printf("H classes=%d wf=1\\n");' % len(scn['classes']))
     for o in scn['objects']:
         w('    make_%s();' % o['name'])
     for c in scn['calls']:
         w('    call_%d();' % c['id'])
+    for c in scn.get('error_calls', []):
+        w('    ecall_%d();' % c['id'])
     w('    std::printf("END\\n");')
     w('    return 0;')
     w('}')
     return '\n'.join(out) + '\n'
 
 
+# --------------------------------------------------------------------------- unresolvable calls (property C02, every kind)
+
+ERROR_PATTERNS = ['NV', 'VN', 'NVN', 'VNV', 'NVNV', 'VVN', 'NVVN', 'VNVNV']
+
+
+def more_specific(H, a, b):
+    """compiler.hpp is_more_specific: some position strictly more specific, none strictly less (positions whose classes
+    are unrelated do not count either way)"""
+    result = False
+    for x, y in zip(a, b):
+        if x != y:
+            if is_base(H, y, x):
+                result = True
+            elif is_base(H, x, y):
+                return False
+    return result
+
+
+def classify(H, defs, Cs):
+    """the library's rule for dynamic classes Cs: ('ok', def) | ('no_definition', None) | ('ambiguous', None)"""
+    app = [d for d in defs if all(is_base(H, Dd, C) for Dd, C in zip(d['classes'], Cs))]
+    if not app:
+        return 'no_definition', None
+    bests = [d for d in app if all(e is d or more_specific(H, d['classes'], e['classes']) for e in app)]
+    if len(bests) == 1:
+        return 'ok', bests[0]
+    return 'ambiguous', None
+
+
+def make_error_scenario(rng, name, shape, classes, policy='default', sanitize=True, ndebug=False, registration='macro'):
+    """methods of every virtual parameter kind, non-virtual parameters before / between / after, and for each a few calls
+    that have no applicable definition or (multiple inheritance / arity >= 2) are ambiguous"""
+    import itertools
+    H = {i: [(b, bool(v)) for b, v in bs] for i, bs in classes}
+    scn = {'name': name, 'shape': shape, 'kind': 'c02_kinds',
+           'classes': [{'id': i, 'bases': [[b, int(v)] for b, v in bs], 'pad': rng.choice([0, 8, 24])} for i, bs in classes],
+           'flags': {'sanitize': bool(sanitize), 'ndebug': bool(ndebug), 'registration': registration, 'policy': policy},
+           'methods': [], 'objects': [], 'calls': [], 'error_calls': []}
+    objs = {}
+
+    def obj_for(C, slot):
+        if (C, slot) not in objs:
+            objs[(C, slot)] = 'o%d' % len(objs)
+            scn['objects'].append({'name': objs[(C, slot)], 'cls': C})
+        return objs[(C, slot)]
+
+    roots = [B for B in sorted(H) if len(descendants(H, B)) >= 2]
+    allk = KINDS + DECL_ONLY_KINDS
+    poff = rng.below(len(ERROR_PATTERNS))
+    cid = 0
+    for mi, kind0 in enumerate(allk + [rng.choice(KINDS), 'cvsptr']):
+        pat = ERROR_PATTERNS[(mi + poff) % len(ERROR_PATTERNS)]
+        route = 'macro' if mi % 2 == 0 else 'fn'
+        declonly = kind0 in DECL_ONLY_KINDS
+        params, nv = [], 0
+        for ch in pat:
+            if ch == 'V':
+                k = kind0 if (nv == 0 or declonly) else rng.choice(KINDS)
+                params.append({'v': 1, 'kind': k, 'cls': rng.choice(roots)})
+                nv += 1
+            else:
+                params.append({'v': 0, 'cat': rng.choice(['val', 'lref', 'rref'])})
+        m = {'id': mi, 'route': route, 'ret': rng.choice(['void', 'int', 'lref']), 'params': params, 'defs': []}
+        vparams = [p for p in params if p['v']]
+        spaces = [descendants(H, p['cls']) for p in vparams]
+        tuples = list(itertools.product(*spaces))
+        best_defs, best_score = [], -1
+        if not declonly:
+            for _ in range(12):
+                defs = []
+                for di in range(rng.range(1, 3)):
+                    dt = []
+                    for p, sp in zip(vparams, spaces):
+                        cands = [D for D in sp if route == 'fn' or count_sub(H, D, p['cls']) == 1]
+                        dt.append(rng.choice(cands))
+                    if dt not in [d['classes'] for d in defs]:
+                        defs.append({'id': len(defs), 'classes': dt})
+                kinds_found = set(classify(H, defs, t)[0] for t in tuples)
+                score = ('no_definition' in kinds_found) + 2 * ('ambiguous' in kinds_found)
+                if score > best_score:
+                    best_defs, best_score = defs, score
+        m['defs'] = best_defs
+        scn['methods'].append(m)
+        for want in ('no_definition', 'ambiguous'):
+            cands = [t for t in tuples if classify(H, m['defs'], t)[0] == want]
+            rng.shuffle(cands)
+            for Cs in cands[:2]:
+                args, vi = [], 0
+                for pi, p in enumerate(params):
+                    if p['v']:
+                        C = Cs[vi]
+                        subsC = subobjects(H, C)
+                        s = rng.choice(sorted(k for k in subsC if k[-1] == p['cls']))
+                        e = rng.choice(['lvalue', 'xvalue']) if p['kind'] in ('shared', 'vsptr') else 'lvalue'
+                        args.append({'obj': obj_for(C, vi), 'cls': C, 'path': list(s), 'witness': list(subsC[s]), 'expr': e})
+                        vi += 1
+                    else:
+                        args.append({'value': 700000 + cid * 10 + pi, 'expr': {'val': rng.choice(['prvalue', 'xvalue']), 'lref': 'lvalue',
+                                                                             'rref': 'xvalue'}[p['cat']]})
+                scn['error_calls'].append({'id': cid, 'method': mi, 'args': args, 'status': want, 'classes': list(Cs)})
+                cid += 1
+    return scn
+
+
+def error_expectations(scn):
+    """property C02 on each unresolvable call: status, arity, dynamic classes of exactly the virtual arguments, in order"""
+    meth = {m['id']: m for m in scn['methods']}
+    out = {}
+    for c in scn.get('error_calls', []):
+        m = meth[c['method']]
+        vs = [(pi, p) for pi, p in enumerate(m['params']) if p['v']]
+        out[c['id']] = {'method': m['id'], 'route': m['route'], 'status': 1 if c['status'] == 'no_definition' else 2, 'arity': len(vs),
+                        'types': [cname(C) for C in c['classes']], 'kinds': [p['kind'] for pi, p in vs],
+                        'positions': [position_label(m['params'], pi) for pi, p in vs],
+                        'signature': ''.join('V' if p['v'] else 'N' for p in m['params'])}
+    return out
+
+
 if __name__ == '__main__':
     import sys
     scn = json.load(open(sys.argv[1]))
+    scn = scn.get('scenario', scn)
     sys.stdout.write(emit_cpp(scn) if len(sys.argv) < 3 or sys.argv[2] == 'cpp' else emit_model_input(scn))
